@@ -36,6 +36,18 @@ def pops (cmp : α → α → Int) : Nat → St α → List α
       | [] => ix.2 :: pops cmp fuel ⟨h1, s.rests⟩
       | y :: ys => ix.2 :: pops cmp fuel ⟨Heap.push (hlt cmp) h1 (ix.1, y), s.rests.set ix.1 ys⟩
 
+/-- the loop of `MergeSorted` when the consumer stops at its `n`-th item (`n ≥ 1`): nothing more is popped or pulled -/
+def popsN (cmp : α → α → Int) : Nat → Nat → St α → List α
+  | 0, _, _ => []
+  | fuel + 1, n, s =>
+    match Heap.pop (hlt cmp) s.heap with
+    | none => []
+    | some (ix, h1) =>
+      if n ≤ 1 then [ix.2] else
+      match s.rests.getD ix.1 [] with
+      | [] => ix.2 :: popsN cmp fuel (n - 1) ⟨h1, s.rests⟩
+      | y :: ys => ix.2 :: popsN cmp fuel (n - 1) ⟨Heap.push (hlt cmp) h1 (ix.1, y), s.rests.set ix.1 ys⟩
+
 def total (runs : List (List α)) : Nat := (runs.map List.length).sum
 
 /-- `iteru.MergeSorted(iters, compare)` fully consumed -/
@@ -69,6 +81,25 @@ def resolve [DecidableEq α] (cmp : α → α → Int) (pick : α → α → α)
 /-- `mergesort.Merge(iters, cmp, pick)` fully consumed; `none` = panic "pick must return one of the provided arguments" -/
 def merge [DecidableEq α] (cmp : α → α → Int) (pick : α → α → α) (runs : List (List α)) : Option (List α) :=
   resolve cmp pick (mergeSorted cmp runs)
+
+/-- `MergeSorted` consumed up to the `n`-th item -/
+def mergeSortedN (cmp : α → α → Int) (runs : List (List α)) (n : Nat) : List α :=
+  popsN cmp (total runs + 1) n (init cmp runs)
+
+/-- `Merge`'s loop when the consumer stops at its `n`-th item (`n ≥ 1`): the loop returns right after that `yield`,
+so later items are not processed (a panic they would cause does not happen) -/
+def rstepN [DecidableEq α] (cmp : α → α → Int) (pick : α → α → α) (n : Nat) (s : RSt α) (x : α) : RSt α :=
+  if s.out.length ≥ n then s else rstep cmp pick s x
+
+def finishN (n : Nat) (s : RSt α) : Option (List α) :=
+  if s.panicked then none else if s.out.length ≥ n then some (s.out.take n) else some (s.out ++ s.prev.toList)
+
+def resolveN [DecidableEq α] (cmp : α → α → Int) (pick : α → α → α) (n : Nat) (xs : List α) : Option (List α) :=
+  finishN n (xs.foldl (rstepN cmp pick n) {})
+
+/-- `Merge` consumed up to the `n`-th item -/
+def mergeN [DecidableEq α] (cmp : α → α → Int) (pick : α → α → α) (runs : List (List α)) (n : Nat) : Option (List α) :=
+  resolveN cmp pick n (mergeSorted cmp runs)
 
 /-! entries as merged by `kv.MergeEntries` -/
 structure Entry where
